@@ -80,6 +80,9 @@ pub(crate) struct FetchModel<'a> {
     hds: Vec<packed::Byte32>,
     /// start with a transaction fetch and a header fetch already in flight
     start_in_flight: bool,
+    /// indices of the transactions / headers the user may ask for (quick: a subset)
+    ask_txs: Vec<usize>,
+    ask_hds: Vec<usize>,
     track: RefCell<Track>,
 }
 
@@ -294,11 +297,11 @@ impl<'a> Model for FetchModel<'a> {
         let t = self.track.borrow();
         let mut v = vec![];
         if t.calls < 3 {
-            for i in 0..self.txs.len() {
-                v.push(Ev::FetchTx(i));
+            for i in &self.ask_txs {
+                v.push(Ev::FetchTx(*i));
             }
-            for i in 0..self.hds.len() {
-                v.push(Ev::FetchHeader(i));
+            for i in &self.ask_hds {
+                v.push(Ev::FetchHeader(*i));
             }
         }
         if t.fetch_ticks < 2 {
@@ -577,6 +580,8 @@ pub(crate) fn run(opts: &Opts, report: &mut Report) {
             fork,
             cfg: ClientCfg { last_n: 3, max_outbound: 2, cp_interval: 4, ..Default::default() },
             start_in_flight,
+            ask_txs: if thorough { vec![0, 1, 2, 3] } else { vec![1, 2] },
+            ask_hds: if thorough { vec![0, 1, 2, 3] } else { vec![0, 3] },
             track: RefCell::new(Track::default()),
         };
         let mut st0 = bfs::Stats::default();
